@@ -101,9 +101,41 @@ class C17(Prop):
             return {"err": exc_name(e), "msg": traceback.format_exc()[-300:]}
 
     # ------------------------------------------------------------------
+    _drift_memo: dict = {}
+
+    def _drift_check(self, case, op, v, drift):
+        """the drift for (folding value → target) is a function of the target alone: (a) whenever it is measured
+        again in this process it must be the same vector (a cache or a shared array must not change it), and
+        (b) it must agree with the dispersion / period-drift law evaluated here in float64, to within a rounding
+        boundary"""
+        ni, nb, nbin = case["shape"]
+        key = (tuple(case["shape"]), case["nchans"], case["nsamples"], case["tsamp"], case["period0"], case["dm0"], op, v)
+        first = self._drift_memo.setdefault(key, list(drift))
+        if first != list(drift):
+            return (f"the drift for {op}={v} (folding dm {case['dm0']}, period {case['period0']}) was {first} when first "
+                    f"computed in this process and is {list(drift)} now: it does not depend on the target alone")
+        FCH1, FOFF = 1400.0, -0.5          # the band of `c04.mk_header`
+        if op == "dm":
+            ddm = v - case["dm0"]
+            cw = FOFF * case["nchans"] / nb
+            tb = case["period0"] / nbin
+            want = [4.148808e3 * ddm * ((FCH1 + b * cw) ** -2 - FCH1 ** -2) / tb for b in range(nb)]
+        else:
+            tobs = case["nsamples"] * case["tsamp"]
+            dbins = (v / case["period0"] - 1) * tobs * nbin / case["period0"]
+            want = [i * dbins / ni for i in range(ni)]
+        for k, (g, w) in enumerate(zip(drift, want)):
+            if abs(g - w) > 0.5 + 1e-5 * abs(w) + 1e-6:
+                return f"drift of lane {k} for {op}={v} is {g}; the drift law gives {w:.4f}"
+        return None
+
     def oracle(self, case, obs):
         if "err" in obs:
             return f"history {case['hist']} raised {obs['err']}: {obs['msg'][-150:]}"
+        for st, (op, v) in zip(obs["steps"], case["hist"]):
+            bad = self._drift_check(case, op, v, st["drift"])
+            if bad:
+                return bad
         ni, nb, nbin = case["shape"]
         orig = np.array(obs["orig"]).reshape(ni, nb, nbin)
         steps = obs["steps"]
